@@ -1,4 +1,5 @@
 import Driver.Enc
+import Driver.Crdt
 
 partial def loop (h : IO.FS.Stream) (out : IO.FS.Stream) (f : List String → String) : IO Unit := do
   let line ← h.getLine
@@ -7,9 +8,18 @@ partial def loop (h : IO.FS.Stream) (out : IO.FS.Stream) (f : List String → St
   out.putStrLn (f toks)
   loop h out f
 
+partial def loopS {σ : Type} (h : IO.FS.Stream) (out : IO.FS.Stream) (f : σ → List String → σ × String) (s : σ) : IO Unit := do
+  let line ← h.getLine
+  if line.isEmpty then return ()
+  let toks := (line.trimAscii.toString.splitOn " ").filter (· ≠ "")
+  let (s', o) := f s toks
+  out.putStrLn o
+  loopS h out f s'
+
 def main (args : List String) : IO UInt32 := do
   let stdin ← IO.getStdin
   let stdout ← IO.getStdout
   match args with
   | ["enc"] => loop stdin stdout Driver.Enc.step; return 0
+  | ["crdt"] => loopS stdin stdout Driver.Crdt.step ({} : Driver.Crdt.World); return 0
   | _ => IO.eprintln "usage: drv <engine>"; return 2
